@@ -29,9 +29,21 @@ check("C16","bounded-exhaustive over the C02 forests that load: InternalizeRefs 
 check("C20","bounded-exhaustive single mutations of the skeleton (every node x 61 replacement values incl. 49 adversarial $ref forms, deletion, every byte prefix, structural byte flips, YAML renderings and YAML-only token documents) and every C02 forest, x entry point x switch: Load, Validate, json/yaml Marshal and InternalizeRefs must return within the step budget",
  "termination by instrumented step budget; worker deaths attributed to the executing vector; quick tier thins the $ref adversaries at non-reference nodes to a fixed 1-in-8 slice",
  "bounded exhaustive mutation enumeration on the real code with a returns-normally invariant (panic, step budget, worker death)","3 C20")
+check("C03","bounded-exhaustive over the specifications' field tables: for each of 30 OpenAPI 3.0.3 and 10 Swagger 2.0 object kinds every single field, every pair (thorough: triples) and all fields, x extension variants x JSON/YAML input: marshal(load(D)) == D, marshalling is idempotent through JSON and through YAML",
+ "field tables and sample values are written from the specifications; documents the library refuses to parse are skipped and counted",
+ "bounded exhaustive enumeration of field subsets on the real (un)marshallers with a round-trip oracle","3 C03")
+check("C04","bounded-exhaustive: the conforming skeleton under all 64 option sets, and 80 single-violation rule mutations x every inline location of the rule's subject x 64 option sets; rejected iff no enabled option governs the rule",
+ "rule table mc/checks/c04.go (mutation purity, governing option); abstains for the uncompilable-pattern rule when pattern validation is off but examples validation is on",
+ "bounded exhaustive enumeration of (rule, location, option set) on the real validator against a rule-table model","3 C04")
+check("C05","bounded-exhaustive over the legal in/style/explode table (17 cells) x 13 schema shapes x values x presence classes x required x allowEmptyValue, with reversed property order and descending map order as deviations: decoded value == serialised value, verdict == reference evaluator, missing/empty/garbage error kinds",
+ "reference serialiser mc/ref/style.go and evaluator; non-invertible (cell,value) pairs skipped and counted; decoded value observed through the verif hook",
+ "bounded exhaustive enumeration of serialised parameters on the real decoder against an inverse-function and a reference model","3 C05")
+check("C06","bounded-exhaustive: (A) every set of <=3 declared media types x 13 Content-Type headers x marker bodies x required: the entry chosen by the documented precedence decides; (B) object bodies in json, urlencoded (5 array encodings), multipart (text and JSON parts) x required lists with readOnly/writeOnly x unparsable field x ExcludeReadOnlyValidations: decoder returns the value, verdict == reference evaluator (request reading)",
+ "selection model mc/ref/content.go, reference encoders, reference evaluator with request reading",
+ "bounded exhaustive enumeration of request bodies on the real validator against precedence and evaluator models","3 C06")
 NA_REASON="check not built yet (work in progress; see DESIGN.md section 5)"
 m={"version":1,"setup_cmd":"bin/setup",
- "hooks":{"guard":"verif","enable":"go build -tags verif -overlay <generated> (bin/check does it on every invocation, regenerating the overlay from /repo's working tree)","baseline_off_cmd":"bin/baseline","source_commits":[],"add_only":True},
+ "hooks":{"guard":"verif","enable":"go build -tags verif -overlay <generated> (bin/check does it on every invocation, regenerating the overlay from /repo's working tree)","baseline_off_cmd":"bin/baseline","source_commits":["4b7cd63"],"add_only":True},
  "engines":[{"name":ENGINE,"path":"mc/explore","serves_properties":sorted(C),"kind_free_text":"stateless depth-first enumeration of choice vectors with replay-by-prefix over the real implementation; deviation-bounded environment answers (map iteration order, reader answers, callbacks, schedules); 16 worker processes sharded by generation prefix; build-time instrumentation overlay owns map order and step budget"}],
  "checks":[C[k] for k in sorted(C)],
  "not_applicable":[{"property_id":i,"reason":NA_REASON} for i in ids if i not in C]}
